@@ -7,6 +7,9 @@
   different tokens even when their Python hashes collide (-1 / -2, objects sharing a __hash__); the harness
   generates such pairs, so a table keyed by hashes instead of values breaks the correspondence.
   Parameter names are ordered like their tokens (the harness names token i "p<i>", one digit).
+  Value tokens >= `pairBase` denote the Python 2-tuple `("p<n>", v)` (a string that is a legal keyword name and a value):
+  such a tuple is EQUAL to the `(name, value)` pair that get_args_tuple appends for a keyword that names no parameter,
+  so the two are one and the same key element (`KeyElem.ofVal`).
   Scheduling is NOT modelled here: when a body starts / is resumed / suspends / completes is an INPUT (an
   operation of the history), exactly as observed on the real scheduler; the model answers what every
   `.asynq()` / `.dirty()` call returns and what the process-wide table `DeduplicateDecorator.tasks` holds.
@@ -15,24 +18,47 @@ namespace AsynqModel.Dedup
 
 /-! ## Part 1: signatures, Python call binding, `get_args_tuple` -/
 
-/-- element of a key tuple: a plain argument value, or a `(name, value)` pair appended for a keyword that is
-    not a named parameter (caching.py:336-338) -/
+/-- element of a key tuple IN NORMAL FORM: a plain argument value that is not a `(name, value)` 2-tuple, or a
+    `(name, value)` 2-tuple - whether it was appended by get_args_tuple for a keyword that is not a named parameter
+    (caching.py:336-338) or passed by the caller as an argument value makes no difference to Python's `==` / `hash` -/
 inductive KeyElem where
   | v (x : Nat)
   | kw (name val : Nat)
   deriving Repr, DecidableEq, Inhabited
 
+/-- value tokens from here on denote the tuple `("p<n>", v)`: token `pairBase + 1000 * n + v`, `v < 1000` -/
+def pairBase : Nat := 1000000
+
+def pairTok (name val : Nat) : Nat := pairBase + 1000 * name + val
+
+/-- the `(name, value)` 2-tuple a value token denotes, if any -/
+def asPair (x : Nat) : Option (Nat × Nat) :=
+  if pairBase ≤ x then some ((x - pairBase) / 1000, (x - pairBase) % 1000) else none
+
+/-- an argument value as an element of the key tuple (normal form) -/
+def KeyElem.ofVal (x : Nat) : KeyElem :=
+  match asPair x with
+  | some (nm, va) => .kw nm va
+  | none => .v x
+
+/-- no value of the list is a `(name, value)` 2-tuple -/
+def noPair (xs : List Nat) : Bool := xs.all fun x => (asPair x).isNone
+
 /-- `inspect.getfullargspec(original_fn)`: `args` with their defaults, `kwonlyargs` with `kwonlydefaults`,
-    `varargs is not None`, `varkw is not None` -/
+    `varargs is not None`, `varkw is not None`; and `original_fn.__code__.co_posonlyargcount`: the first `posonly`
+    entries of `args` are positional-only (`def f(a, b, /, c)`); getfullargspec does NOT tell them apart -/
 structure Sig where
   pos : List (Nat × Option Nat)
   kwonly : List (Nat × Option Nat)
   varargs : Bool
   varkw : Bool
+  posonly : Nat := 0
   deriving Repr, DecidableEq, Inhabited
 
 def Sig.posNames (s : Sig) : List Nat := s.pos.map (·.1)
 def Sig.kwNames (s : Sig) : List Nat := s.kwonly.map (·.1)
+/-- names of the positional-only parameters: a keyword of that name never reaches the parameter (PEP 570) -/
+def Sig.poNames (s : Sig) : List Nat := s.posNames.take s.posonly
 
 /-- tools.py:420  `arg_names = argspec.args + argspec.kwonlyargs` -/
 def Sig.argNames (s : Sig) : List Nat := s.posNames ++ s.kwNames
@@ -90,7 +116,7 @@ def getArgsTuple (args : List Nat) (kw : List (Nat × Nat)) (argNames : List Nat
   match fill kw dflt (argNames.drop args.length) with
   | .error e => .error e
   | .ok filled =>
-    .ok (args.map .v ++ filled.map .v ++ (extras kw argNames).map fun p => .kw p.1 p.2)
+    .ok (args.map .ofVal ++ filled.map .ofVal ++ (extras kw argNames).map fun p => .kw p.1 p.2)
 
 /-- the default keygetter of `deduplicate` (tools.py:417-424) -/
 def Sig.key (s : Sig) (args : List Nat) (kw : List (Nat × Nat)) : Except Nat (List KeyElem) :=
@@ -109,21 +135,42 @@ inductive BindErr where
   deriving Repr, DecidableEq, Inhabited
 
 /-- Python's binding of a call `fn(*args, **kw)` to the signature (language semantics - assumed, and compared
-    with what the real function body receives on every started task). Every error is a `TypeError`. -/
+    with what the real function body receives on every started task). Every error is a `TypeError`.
+    A keyword whose name is that of a positional-only parameter does not reach that parameter: it lands in `**extra`
+    when there is one and is an error otherwise. -/
 def Sig.bind (s : Sig) (args : List Nat) (kw : List (Nat × Nat)) : Except BindErr Binding :=
   let n := s.pos.length
+  let kwN := kw.filter fun p => !s.poNames.contains p.1
   if args.length > n && !s.varargs then .error .tooMany
-  else if (s.posNames.take args.length).any (fun nm => (alook kw nm).isSome) then .error .multiple
+  else if (s.posNames.take args.length).any (fun nm => (alook kwN nm).isSome) then .error .multiple
   else
-    match fill kw s.defaults (s.posNames.drop args.length ++ s.kwNames) with
+    match fill kwN s.defaults (s.posNames.drop args.length ++ s.kwNames) with
     | .error nm => .error (.missing nm)
     | .ok filled =>
-      let ex := extras kw s.argNames
+      let ex := sortPairs (kw.filter fun p => !s.argNames.contains p.1 || s.poNames.contains p.1)
       if !ex.isEmpty && !s.varkw then .error .unexpected
       else .ok { params := args.take n ++ filled, rest := args.drop n, extra := ex }
 
-/-- signatures on which the default key is faithful: not both `*args` and keyword-only parameters -/
-def Sig.ok (s : Sig) : Bool := !s.varargs || s.kwonly.isEmpty
+/-- signatures on which the default key is a flat print of the binding (parameters, rest, extra one after the
+    other): not both `*args` and keyword-only parameters (the key then drops the keyword-only values and mistakes
+    overflow positionals for them), and not both positional-only parameters and `**kwargs` (the key then drops a
+    keyword that has the name of a positional-only parameter, or takes it for the parameter) -/
+def Sig.flat (s : Sig) : Bool := (!s.varargs || s.kwonly.isEmpty) && (s.posonly == 0 || !s.varkw)
+
+/-- signatures on which the default key is faithful WHATEVER the argument values are: flat, and not both `*args`
+    and `**kwargs` (the flat print then cannot tell a `(name, value)` tuple passed in `*args` from a keyword) -/
+def Sig.ok (s : Sig) : Bool := s.flat && !(s.varargs && s.varkw)
+
+/-- calls on which the default key is faithful: the signature is flat and, when it has both `*args` and
+    `**kwargs`, no positional argument is a `(name, value)` 2-tuple -/
+def callOk (s : Sig) (args : List Nat) : Bool := s.flat && (!(s.varargs && s.varkw) || noPair args)
+
+/-- which of the three known ways of conflating calls a signature is open to (the name is the spec clause) -/
+def Sig.defect (s : Sig) : Option String :=
+  if s.varargs && !s.kwonly.isEmpty then some "varargs-kwonly"
+  else if s.posonly != 0 && s.varkw then some "posonly-varkw"
+  else if s.varargs && s.varkw then some "varargs-varkw-pair"
+  else none
 
 /-! ## Part 2: the table `DeduplicateDecorator.tasks` and the operations on it -/
 
@@ -185,6 +232,7 @@ structure Task where
   key : Key               -- the `cache_key` closed over by `callback` (tools.py:366-367)
   b : Binding             -- what the generator function bound when it was called at creation
   reg : Bool              -- stored in the table at creation and subscribed `callback`
+  started : Bool          -- the first `send(None)` has happened (a generator starts once)
   running : Bool          -- AsyncTask.running
   out : Option Outc
   deriving Repr, DecidableEq, Inhabited
@@ -217,7 +265,8 @@ inductive Res where
   | typeError
   | unit
   | binding (b : Binding)        -- what the starting body received
-  | bad                          -- the operation does not make sense in this state (never observed)
+  | bad                          -- the operation does not make sense in this state (unknown function / task, a second
+                                 -- start, anything after completion); never observed on the implementation
   deriving Repr, DecidableEq, Inhabited
 
 structure Obs where
@@ -232,7 +281,7 @@ def create (s : St) (d : FnDecl) (args : List Nat) (kw : List (Nat × Nat)) (key
   | .error _ => (s, .typeError)
   | .ok b =>
     let t := s.tasks.length
-    let task : Task := { key := key, b := b, reg := reg, running := false, out := none }
+    let task : Task := { key := key, b := b, reg := reg, started := false, running := false, out := none }
     ({ tasks := s.tasks ++ [task], table := if reg then mset s.table key t else s.table }, .ret t true)
 
 def setTask (s : St) (t : Nat) (x : Task) : St := { s with tasks := s.tasks.set t x }
@@ -267,8 +316,8 @@ def step (fns : List FnDecl) (s : St) : Op → St × Res
     match s.tasks[t]? with
     | none => (s, .bad)
     | some task =>
-      if task.out.isSome then (s, .bad)
-      else (setTask s t { task with running := true }, .binding task.b)
+      if task.out.isSome || task.started then (s, .bad)           -- a generator body starts once
+      else (setTask s t { task with started := true, running := true }, .binding task.b)
   | .resume t thrown =>
     match s.tasks[t]? with
     | none => (s, .bad)
@@ -326,6 +375,47 @@ def avoids (fns : List FnDecl) (k : Key) (s : St) : List Op → Bool
 
 def sigsOk (fns : List FnDecl) : Bool := fns.all fun d => d.sig.ok
 
+/-- the key of a call / dirty spelling (`none`: unknown function, or the keygetter raises) - no state involved -/
+def callKey (fns : List FnDecl) (c : Spell) : Option Key :=
+  match fns[c.fn]? with
+  | none => none
+  | some d =>
+    match d.sig.key (effArgs d c) c.kw with
+    | .error _ => none
+    | .ok tup => some { tup := tup, th := c.th, fn := c.fn }
+
+/-- the operation is within the part of the statement that holds of the code: every call / dirty() goes to a
+    function whose default key is faithful for these arguments (`callOk`) -/
+def opOk (fns : List FnDecl) : Op → Bool
+  | .call c | .dirty c =>
+    match fns[c.fn]? with
+    | none => true
+    | some d => callOk d.sig (effArgs d c)
+  | _ => true
+
+def histOk (fns : List FnDecl) (ops : List Op) : Bool := ops.all (opOk fns)
+
+/-- the operation does not end the in-flight period of task `t0` under key `k`: it is not a dirty() of that key and
+    not the completion of `t0` -/
+def calmOp (fns : List FnDecl) (k : Key) (t0 : Nat) : Op → Bool
+  | .dirty c => callKey fns c != some k
+  | .complete t _ => t != t0
+  | _ => true
+
+/-- the in-flight period of task `t0` under key `k` is not ended by the history: no dirty() of that key, no
+    completion of `t0` (everything else - calls of any key, dirty() / completions of other keys, scheduling of any
+    task including `t0`, ends of threads - is allowed) -/
+def calm (fns : List FnDecl) (k : Key) (t0 : Nat) (ops : List Op) : Bool := ops.all (calmOp fns k t0)
+
+/-- the observation is a `start t` answered with a binding: the body of task `t` began to run -/
+def isStartOf (t : Nat) (ob : Obs) : Bool :=
+  match ob.op, ob.res with
+  | .start t', .binding _ => t' == t
+  | _, _ => false
+
+/-- how often the body of task `t` began to run in a list of observations -/
+def bodyStarts (t : Nat) (obs : List Obs) : Nat := (obs.filter (isStartOf t)).length
+
 /-! ## Part 3: the property C12 as an observer over the observations (no model state, no key tuples) -/
 
 /-- the reference notion of "the same call": function, thread and what the call binds -/
@@ -337,27 +427,69 @@ structure RKey where
 
 structure WTask where
   rk : RKey
-  reg : Bool        -- handed out as the shared task of its call (not a private task of a re-entrant call)
+  started : Bool    -- its body has started
   running : Bool    -- the body is executing (between start/resume and suspend/completion)
   done : Bool
   deriving Repr, DecidableEq, Inhabited
 
+/-- what the observer knows.  `poss` gives, for every call (reference key), the SET of states of its table entry
+    that are compatible with everything observed so far: `none` = nothing in flight (never called, completed or
+    dirtied), `some t` = task `t` is its in-flight, undirtied task.  A call that is not listed has `[none]`.
+    The set is a singleton except after a `dirty()` whose arguments do not bind and that did not raise: the
+    statement does not say which entry such a dirty() removes, so for every call of that function on that thread
+    "nothing in flight" becomes possible as well - until the next answer to that call tells which it is. -/
 structure Watch where
-  ref : List (RKey × Nat)     -- the in-flight, undirtied task of every call
+  poss : List (RKey × List (Option Nat))
   info : List WTask           -- every task token seen so far
-  gaveUp : Bool               -- history left the scope of the statement (dirty() with arguments that do not bind)
+  seen : List (Nat × Binding) -- (function, binding) of every well-formed call / dirty() so far; used ONLY to name
+                              -- the clause of a failure (is it one of the known key conflations?), never to accept
   deriving Repr, DecidableEq, Inhabited
 
-def Watch.init : Watch := { ref := [], info := [], gaveUp := false }
+def Watch.init : Watch := { poss := [], info := [], seen := [] }
+
+def pget : List (RKey × List (Option Nat)) → RKey → List (Option Nat)
+  | [], _ => [none]
+  | (k, P) :: r, x => if k = x then P else pget r x
+
+def pset (m : List (RKey × List (Option Nat))) (x : RKey) (P : List (Option Nat)) : List (RKey × List (Option Nat)) :=
+  (x, P) :: m.filter fun e => !decide (e.1 = x)
+
+/-- "nothing in flight" becomes possible for every listed call of function `fn` on thread `th` -/
+def ploosen (m : List (RKey × List (Option Nat))) (fn th : Nat) : List (RKey × List (Option Nat)) :=
+  m.map fun e => if e.1.fn = fn ∧ e.1.th = th then (e.1, none :: e.2) else e
 
 def wset (w : Watch) (t : Nat) (x : WTask) : Watch := { w with info := w.info.set t x }
 
+/-- the body of task `t` may be executing -/
+def Watch.mayRun (w : Watch) (t : Nat) : Bool := ((w.info[t]?).map (·.running)).getD false
+
+/-- a possible state of a table entry whose task may be executing its body -/
+def Watch.runningCand (w : Watch) : Option Nat → Bool
+  | some t => w.mayRun t
+  | none => false
+
+/-- does the failure at a well-formed call of `d` belong to one of the known key conflations?  A conflation needs a
+    signature that is open to it and, for two of the three, arguments of a particular form somewhere in the history
+    of that function (this call, or an earlier well-formed call / dirty()): a `(name, value)` tuple among the overflow
+    positionals / a keyword that has the name of a positional-only parameter.  Otherwise the failure keeps its name. -/
+def conflation (d : FnDecl) (w : Watch) (fn : Nat) (b : Binding) : Option String :=
+  let bs := b :: ((w.seen.filter fun x => x.1 == fn).map (·.2))
+  match d.sig.defect with
+  | some "varargs-varkw-pair" => if bs.any (fun x => !noPair x.rest) then some "varargs-varkw-pair" else none
+  | some "posonly-varkw" =>
+    if bs.any (fun x => x.extra.any fun p => d.sig.poNames.contains p.1) then some "posonly-varkw" else none
+  | r => r
+
+/-- one observation.  `.bad` is the model's answer to an operation that makes no sense (unknown function / task, a
+    second start, anything after completion); the implementation never produces it, so on the implementation's
+    observations every such operation is a failure. -/
 def watchStep (fns : List FnDecl) (w : Watch) (ob : Obs) : Except String Watch :=
-  if w.gaveUp then .ok w else
+  let unit (w' : Watch) (e : String) : Except String Watch := if ob.res == .unit then .ok w' else .error e
+  let bad (e : String) : Except String Watch := if ob.res == .bad then .ok w else .error e
   match ob.op with
   | .call c =>
     match fns[c.fn]? with
-    | none => .ok w
+    | none => bad "unknown-function"
     | some d =>
       match d.sig.bind (effArgs d c) c.kw with
       | .error _ =>
@@ -368,89 +500,96 @@ def watchStep (fns : List FnDecl) (w : Watch) (ob : Obs) : Except String Watch :
         | _ => .error "call-result"
       | .ok b =>
         let rk : RKey := { fn := c.fn, th := c.th, b := b }
-        -- name of the failing clause; on a signature whose default key is known to be unfaithful (open finding:
-        -- `*args` together with keyword-only parameters) every failure is attributed to that cause
-        let clause (base : String) : String := if !d.sig.ok then "varargs-kwonly" else base
-        match mget w.ref rk with
-        | some t0 =>
-          if ((w.info[t0]?).map (·.running)).getD false then
-            -- issued from inside the running body of the in-flight task: only the bookkeeping is constrained
-            match ob.res with
-            | .ret t true =>
-              if t = w.info.length then
-                .ok { w with info := w.info ++ [{ rk := rk, reg := false, running := false, done := false }] }
-              else .error "token"
-            | .ret t false => if t < w.info.length then .ok w else .error "token"
-            | .typeError => .ok w
-            | _ => .error "call-result"
+        let P := pget w.poss rk
+        -- name of the failing clause (a failure that is one of the known key conflations carries its name)
+        let clause (base : String) : String := (conflation d w c.fn b).getD base
+        match ob.res with
+        | .ret t false =>
+          -- an existing task: it must be the in-flight, undirtied task of this very call
+          if P.contains (some t) then .ok { w with poss := pset w.poss rk [some t], seen := (c.fn, b) :: w.seen }
+          else .error (clause (if P.all (· == none) then "fresh" else "shared"))
+        | .ret t true =>
+          if t != w.info.length then .error "token"
           else
-            -- from outside, while the task of this call is in flight and not dirtied: that very task
-            match ob.res with
-            | .ret t false => if t = t0 then .ok w else .error (clause "shared")
-            | _ => .error (clause "shared")
-        | none =>
-          -- nothing in flight for this call (never called, completed, or dirtied): a brand-new task
-          match ob.res with
-          | .ret t true =>
-            if t = w.info.length then
-              .ok { w with ref := mset w.ref rk t,
-                           info := w.info ++ [{ rk := rk, reg := true, running := false, done := false }] }
-            else .error "token"
-          | .ret _ false => .error (clause "fresh")
-          | _ => .error (clause "valid-call-raised")
+            -- a new task: either nothing was in flight for this call (the new task now is its in-flight task), or the
+            -- call was issued while the body of the in-flight task may be executing (a private task; the entry stays)
+            let P' := (if P.contains none then [some t] else []) ++ P.filter w.runningCand
+            if P'.isEmpty then .error (clause "shared")
+            else .ok { poss := pset w.poss rk P',
+                       info := w.info ++ [{ rk := rk, started := false, running := false, done := false }],
+                       seen := (c.fn, b) :: w.seen }
+        | _ => .error (clause "valid-call-raised")
   | .dirty c =>
     match fns[c.fn]? with
-    | none => .ok w
+    | none => bad "unknown-function"
     | some d =>
       match d.sig.bind (effArgs d c) c.kw with
-      | .error _ => .ok { w with gaveUp := true }
+      | .error _ =>
+        -- arguments that do not bind: if it raised, nothing has changed; if it did not, it may have removed the
+        -- entry of any call of this function on this thread
+        match ob.res with
+        | .typeError => .ok w
+        | .unit => .ok { w with poss := ploosen w.poss c.fn c.th }
+        | _ => .error "dirty-result"
       | .ok b =>
-        if ob.res == .unit then .ok { w with ref := merase w.ref { fn := c.fn, th := c.th, b := b } }
-        else .error "dirty-raised"
+        unit { w with poss := pset w.poss { fn := c.fn, th := c.th, b := b } [none], seen := (c.fn, b) :: w.seen } "dirty-raised"
   | .start t =>
     match w.info[t]? with
-    | none => .ok w
+    | none => bad "unknown-task"
     | some x =>
-      if x.done then .ok w
-      else if ob.res == .binding x.rk.b then .ok (wset w t { x with running := true })
+      if x.done then bad "after-done"
+      else if x.started then bad "started-twice"
+      else if ob.res == .binding x.rk.b then .ok (wset w t { x with started := true, running := true })
       else .error "binding"
   | .resume t _ =>
     match w.info[t]? with
-    | none => .ok w
+    | none => bad "unknown-task"
     -- however it is resumed (send or throw), from now on the body is executing: calls it makes are "inside"
-    | some x => if x.done then .ok w else .ok (wset w t { x with running := true })
+    | some x => if x.done then bad "after-done" else unit (wset w t { x with running := true }) "schedule-result"
   | .suspend t =>
     match w.info[t]? with
-    | none => .ok w
-    | some x => if x.done then .ok w else .ok (wset w t { x with running := false })
+    | none => bad "unknown-task"
+    | some x => if x.done then bad "after-done" else unit (wset w t { x with running := false }) "schedule-result"
   | .complete t _ =>
     match w.info[t]? with
-    | none => .ok w
+    | none => bad "unknown-task"
     | some x =>
-      if x.done then .ok w
+      if x.done then bad "completed-twice"
       else
-        let w' := wset w t { x with running := false, done := true }
         -- the in-flight period of this call ends only if this task still is its in-flight task: the completion
         -- of an older, dirtied task must NOT end the period of the newer one
-        if mget w.ref x.rk == some t then .ok { w' with ref := merase w.ref x.rk } else .ok w'
+        let w' := wset w t { x with running := false, done := true }
+        unit { w' with poss := pset w.poss x.rk ((pget w.poss x.rk).map fun o => if o = some t then none else o) }
+          "schedule-result"
   -- the end of a thread ends nothing: the calls it left in flight stay in flight (for that thread token only)
-  | .threadEnd _ => .ok w
+  | .threadEnd _ => unit w "schedule-result"
 
-def watchRun (fns : List FnDecl) (w : Watch) : List Obs → Except String Watch
+/-- what an observation may say about `len(DeduplicateDecorator.tasks)`, given the size after the previous one:
+    a call that returns a new task adds at most one entry, a dirty() / completion that returns normally removes
+    entries at most, everything else (a call answered with an existing task, anything that raises, scheduling, the
+    end of a thread) leaves the size alone -/
+def sizeOk (before : Nat) (ob : Obs) : Bool :=
+  match ob.op, ob.res with
+  | .call _, .ret _ true => before ≤ ob.size && ob.size ≤ before + 1
+  | .dirty _, .unit => ob.size ≤ before
+  | .complete _ _, .unit => ob.size ≤ before
+  | _, _ => ob.size == before
+
+def watchRun (fns : List FnDecl) (w : Watch) (size : Nat) : List Obs → Except String Watch
   | [] => .ok w
   | ob :: obs =>
     match watchStep fns w ob with
-    | .ok w' => watchRun fns w' obs
+    | .ok w' => if sizeOk size ob then watchRun fns w' ob.size obs else .error ("size@" ++ ob.op.name)
     | .error e => .error (e ++ "@" ++ ob.op.name)
 
 /-- `Spec.C12`: the whole history is accepted -/
 def spec (fns : List FnDecl) (obs : List Obs) : Bool :=
-  match watchRun fns Watch.init obs with
+  match watchRun fns Watch.init 0 obs with
   | .ok _ => true
   | .error _ => false
 
 def specClause (fns : List FnDecl) (obs : List Obs) : String :=
-  match watchRun fns Watch.init obs with
+  match watchRun fns Watch.init 0 obs with
   | .ok _ => "ok"
   | .error e => e
 
